@@ -15,6 +15,7 @@ import HpxVerif.Model.OnceProg
 import HpxVerif.Model.Ring
 import HpxVerif.Model.Cover
 import HpxVerif.Model.SphGeom
+import HpxVerif.Model.PolyExact
 
 namespace Hpx.Driver
 
@@ -193,6 +194,15 @@ def stepRest (st : St) (toks : List String) : St × String :=
   match toks with
   | "polygon" :: d :: _n :: rest =>
     (st, optBmocLine (Sph.polygonCoverageApprox st.cfg (nat! d) (flPairs rest)))
+  | "polygonx" :: d :: _n :: rest =>
+    (st, optBmocLine (Sph.polygonCoverage st.cfg (nat! d) (flPairs rest) true))
+  | ["asp", lon1, lat1, lon2, lat2, eps, nit] =>
+    (st, match Sph.fromSphCoo st.debug (fl lon1) (fl lat1), Sph.fromSphCoo st.debug (fl lon2) (fl lat2) with
+      | some p1, some p2 =>
+        (match SpecialPoints.arcSpecialPoints st.debug p1 p2 (fl eps) (nat! nit) with
+         | none => "panic"
+         | some l => if l.isEmpty then "-" else " ".intercalate (l.map fun p => s!"{fb p.1} {fb p.2}"))
+      | _, _ => "panic")
   | "bcone" :: _n :: rest =>
     (st, match Sph.Polygon.new st.debug (flPairs rest) with
       | none => "panic"
